@@ -37,10 +37,13 @@ def judge_result(r, data):
     return None
 
 
+reuse_differs = cppfull.reuse_differs
+
+
 def judge_batch(job):
     states, tier, mode = job
     T.setup_repo()
-    out = {'viol': [], 'states': 0, 'inputs': 0, 'accepted': 0, 'outcomes': {}, 'samples': [], 'known_site_states': 0}
+    out = {'viol': [], 'states': 0, 'inputs': 0, 'accepted': 0, 'outcomes': {}, 'samples': [], 'known_site_states': 0, 'reuse': 0}
     try:
         accepted = [st for st in states if cppfull.full_generator_accepts(st)]
         prepared, rejected = cppfull.prepare_cpp(accepted)
@@ -52,7 +55,7 @@ def judge_batch(job):
             try:
                 ref = prep.ref
                 vg = V.Values(ref, tier)
-                cases, meta = [], {}
+                cases, meta, reuse_meta = [], {}, {}
                 for si, (st, top) in enumerate(zip(prep.states, prep.tops)):
                     out['states'] += 1
                     lay = ref.layout(top)
@@ -75,14 +78,32 @@ def judge_batch(job):
                                     for label, d in F.double_faults(data, spans, e, lay.align, cap=150):
                                         inputs.append((label, d, e))
                     done = set()
+                    fresh_cid = {}
                     for k, (label, data, e) in enumerate(inputs):
                         if (data, e) in done:
                             continue
                         done.add((data, e))
                         cid = '%d.%d' % (si, k)
+                        fresh_cid[(data, e)] = cid
                         ename = 'little' if e == '<' else 'big'
                         cases.append((cid, top, ename, 'dec', data))
                         meta[cid] = (st, top, label, data, e, site)
+                    # object reuse: every valid input decoded into an object that has already received another valid
+                    # input or a faulted one must give what a fresh object gives
+                    if mode != 'short':
+                        k = 0
+                        for ename, e in ENDIANS:
+                            valids = [d for (label, d, e2) in inputs if label == 'valid' and e2 == e]
+                            faulted = [d for (label, d, e2) in inputs if label != 'valid' and e2 == e]
+                            step = max(1, len(faulted) // 6)
+                            for target in valids:
+                                for prime in valids + faulted[::step][:6]:
+                                    if prime == target:
+                                        continue
+                                    cid = '%d.r%d' % (si, k)
+                                    k += 1
+                                    cases.append((cid, top, ename, 'reuse', (prime, target)))
+                                    reuse_meta[cid] = (st, top, prime, target, e, site, fresh_cid[(target, e)])
                 results = D.run_driver(prep.exe, cases, timeout=600)
                 out['inputs'] += len(cases)
                 for cid, (st, top, label, data, e, site) in meta.items():
@@ -111,6 +132,19 @@ def judge_batch(job):
                     elif len(out['samples']) < 2 and o == 'false' and 'counter' in label:
                         out['samples'].append({'state': st.key, 'fault': label, 'input': data.hex(), 'result': 'false',
                                                'alloc': r.get('alloc')})
+                for cid, (st, top, prime, target, e, site, fcid) in reuse_meta.items():
+                    r, rf = results.get(cid) or {}, results.get(fcid) or {}
+                    out['reuse'] += 1
+                    why = reuse_differs(r, rf)
+                    if why:
+                        key = ('cpp|site=%s' % site) if site else 'cpp|reuse|%s|%s' % (why[0], pyjudge._shape_key(ref, top, st))
+                        seen[key] = seen.get(key, 0) + 1
+                        art = None
+                        if seen[key] <= 2:
+                            text, sdefs = sse.state_text(st, 'X')
+                            art = {'schema': text, 'defs': S.defs_to_json(sdefs), 'top': 'X', 'state': st.key, 'endian': e,
+                                   'input': target.hex(), 'prime': prime.hex(), 'fault': 'reuse', 'detail': '%s: %s' % why}
+                        out['viol'].append((key, art))
             finally:
                 shutil.rmtree(prep.outdir, ignore_errors=True)
     except Exception:       # noqa
@@ -128,6 +162,7 @@ def run(ctx):
             raise HarnessError(res['harness_error'])
         nstates += res['states']
         ctx.cov['evaluations'] += res['inputs']
+        ctx.cov['reuse_pairs'] = ctx.cov.get('reuse_pairs', 0) + res['reuse']
         ctx.cov['distinct_nontrivial'] += res['accepted']
         ctx.cov['states'] += res['inputs']
         ctx.cov['transitions'] += res['inputs']
@@ -147,7 +182,8 @@ def run(ctx):
     ctx.cov['rule'] = ('inputs = the fault menu of C06 (every prefix, extensions, every control word x boundary values, byte '
                        'substitutions%s) over the fault universe in little and big endian, plus all strings of length <= %d over '
                        '{00,01,02,03,FF} for the small schemas, each decoded by the ASan+UBSan driver from an exact-size heap '
-                       'buffer. distinct_nontrivial = inputs decode accepted (re-encode length checked). A sanitizer abort, an '
+                       'buffer; every valid input is also decoded into an object that already received each other valid input or one of '
+                       'six faulted ones (reuse_pairs) and must give what a fresh object gives. distinct_nontrivial = inputs decode accepted (re-encode length checked). A sanitizer abort, an '
                        'allocation beyond 4 KiB + 512 x input length, or an accepted input that re-encodes to another length is '
                        'a violation.' % (', pairs of faults' if ctx.tier == 'thorough' else '', 5 if ctx.tier == 'quick' else 7))
     if len(ctx.cov['outcomes']) < 2:
@@ -168,6 +204,14 @@ def replay(art):
             return 'generated C++ does not compile:\n%s' % e.text[:1200]
         data = bytes.fromhex(art['input'])
         ename = 'little' if art['endian'] == '<' else 'big'
+        if art.get('prime') is not None:
+            results = D.run_driver(exe, [('0', art['top'], ename, 'dec', data),
+                                         ('1', art['top'], ename, 'reuse', (bytes.fromhex(art['prime']), data))])
+            why = reuse_differs(results.get('1') or {}, results.get('0') or {})
+            if why:
+                return 'schema:\n%s\nfirst input %s, then %s (%s)\n%s: %s' % (art['schema'], art['prime'], art['input'], ename,
+                                                                              why[0], why[1])
+            return None
         results = D.run_driver(exe, [('0', art['top'], ename, 'dec', data)])
         why = judge_result(results.get('0'), data)
         if why:
